@@ -6,7 +6,7 @@ ANCHORED = ['qsort_s', 'asctime_s', 'ctime_s', 'sprintf_s', 'vsprintf_s', 'snpri
             'swprintf_s', 'vswprintf_s', 'snwprintf_s', 'vsnwprintf_s', 'tmpfile_s', 'strtok_s', 'wcstok_s',
             'localtime_s', 'gmtime_s', 'strerror_s', 'wcsnorm_s', 'fprintf_s', 'printf_s']
 # library-internal code paths behind the anchors (coverage-guard hits, by symbol)
-PATH_SYMS = ['qsort_s.c:sift', 'qsort_s.c:trinkle', 'vsnprintf_s.c:safec_ftoa_long', 'vsnprintf_s.c:safec_atoa', '_asctime_s_chk', '_ctime_s_chk',
+PATH_SYMS = ['qsort_s.c:trinkle', '_qsort_s_chk', 'vsnprintf_s.c:safec_ftoa_long', 'vsnprintf_s.c:safec_atoa', '_asctime_s_chk', '_ctime_s_chk',
              '_swprintf_s_chk', '_vswprintf_s_chk', '_snwprintf_s_chk', '_vsnwprintf_s_chk', 'tmpfile_s']
 
 
